@@ -20,7 +20,7 @@ P = {
   note="Trusted: Coq kernel+vm_compute; AXIOMS (only for C01_routed_steps_do_not_cross and C01_on_class, no other theorem of the development): the Coq standard library's real numbers — ClassicalDedekindReals.sig_forall_dec, ClassicalDedekindReals.sig_not_dec, FunctionalExtensionality.functional_extensionality_dep (the first contact time of the deformation is irrational in general); hand-written Index/Snap model tied by correspondence (tie H) on every run and G2 for the leaf functions; float predicates modelled by exact integer versions (checked envelope); search is not proof outside the class. Known finding F5 attributed by mechanism.",
   tech=TECH + " (tie H + G2); exact-arithmetic search for the unproved global clause", ref="DESIGN.md 6 C01"),
  "C02": dict(
-  text="Full. For all segments, hot sets, depths and every tie: lineIntersects = 'closed segment meets half-open box' (over Q); findIntersectingQuadrants returns exactly the occupied children met, NoDup, in travel order (mutex and 'certain' shortcuts justified); by induction over levels the route is the NoDup list of occupied pixels met, strongly sorted by travel order, starting at the pixel of a and ending at the pixel of b, reversing with the segment — on any grid whose stored extent covers its pixels (FromTileMatrixSet-style grids qualify). C02_source_tie: containsPoint, getInfiniteQuadrant, the quadrantsToCheck table, oneIfRight/Top are regenerated from pointindex.go on every run and proved equal to the model. The polygon-level clause is a theorem of the model (C02_polygon_noncollapsing, C02_snapPolygon_noncollapsing; no routing or kmp premise left): when every routed-and-cleaned ring (chain) has at least three centres and non-zero area and no centre occurs twice in all chains together, snapLevel — and snapPolygon at every requested level — returns exactly the first chain written counter-clockwise as shell and the others written clockwise as holes (attached iff ringContains finds a vertex in or on the shell, otherwise shells of their own), reversed under the flag; without holes exactly [[chain]]; and the chain IS the concatenation of the routed edges, joints written once (C02_chain_is_concatenation_of_routed_edges). It is also held to the implementation by the exact correspondence and an independent exact-rational oracle.",
+  text="Full. For all segments, hot sets, depths and every tie: lineIntersects = 'closed segment meets half-open box' (over Q); findIntersectingQuadrants returns exactly the occupied children met, NoDup, in travel order (mutex and 'certain' shortcuts justified); by induction over levels the route is the NoDup list of occupied pixels met, strongly sorted by travel order, starting at the pixel of a and ending at the pixel of b, reversing with the segment — on any grid whose stored extent covers its pixels (FromTileMatrixSet-style grids qualify). C02_source_tie: containsPoint, getInfiniteQuadrant, the quadrantsToCheck table, oneIfRight/Top are regenerated from pointindex.go on every run and proved equal to the model. The polygon-level clause is a theorem of the model (C02_polygon_noncollapsing, C02_snapPolygon_noncollapsing; no routing or kmp premise left): when every routed-and-cleaned ring (chain) has at least three centres and non-zero area and no centre occurs twice in all chains together, snapLevel — and snapPolygon at every requested level — returns exactly the first chain written counter-clockwise as shell and the others written clockwise as holes (attached iff ringContains finds a vertex in or on the shell, otherwise shells of their own), reversed under the flag; without holes exactly [[chain]]; and the chain IS the concatenation of the routed edges, joints written once (C02_chain_is_concatenation_of_routed_edges). It is also held to the implementation by the exact correspondence and an independent exact-rational oracle. Source tie extended (round 5): the WHOLE body of findIntersectingQuadrants (table and loop), checkPointHits, snapClosestPoints' descent over the Morton-keyed level maps and insertCoord are regenerated from pointindex.go on every run and proved to refine the model (C02_source_tie_find_intersecting, _check_point_hits, _descent, _insert_coord, _index_descent; refinement key = toZ(x,y) by the C17 theorems, no panic, fuel sufficient, deepest level <= 32).",
   note="Trusted: Coq kernel+vm_compute; Index model with (x,y) addresses instead of Morton keys (justified by C17); cmpProducts' 128-bit arithmetic (int64 negation with wrap-around, uint64 conversion, bits.Mul64 high/low words), leavesRoomBelow and lineIntersects are no longer trusted: regenerated from source on every run (gen/LineGen.v) and proved equal to the model's exact Z definitions (C02_source_tie_lineIntersects: cmpProducts for every int64 a, c incl. -2^63 and 0 < b, d < 2^63; lineIntersects for ordinates in [-2^62, 2^62)); hypothesis hs <> [] and the root-extent condition are explicit.",
   tech=TECH + " (tie G2 + H) + independent exact-rational oracle for replay witnesses", ref="DESIGN.md 6 C02"),
  "C03": dict(
@@ -40,15 +40,15 @@ P = {
   note="Trusted: as C01; orientation is the exact integer sign (float sign agrees except on zero-area rings, exempt in the property).",
   tech=TECH + " (tie H on ring structure for all four flag sets, real and synthetic grids)", ref="DESIGN.md 6 C05"),
  "C06": dict(
-  text="Partial, with a machine-checked refutation. Theorems for all inputs: kmpTable/kmpSearch/kmpSearchAll never index out of range and terminate (independent of the non-standard shift), splitRing is total, kmpDeduplicate never exhausts its fuel (no hang at model level) and can fail only through ring[-1] (exactly when matches=1 and reverse matches=0, not known reachable) or RemoveSequences' slice bounds; total on chains without step back and on the C18 class; bounded totality by enumeration inside Coq. END TO END (C06_snapPolygon_errors_only_from_spike_removal, C06_snapPolygon_total_on_class, also for the model with the Morton-key limit up to deepest level 32): every other stage — routing and cleanupNewVertices (C02: no empty centre list), splitRing, dedupeInnersOuters, matchInnersToPolygons, the level assembly, rings of < 3 vertices, empty rings, dying levels — is total on every in-grid polygon, valid or not, so if snapPolygon fails then kmpDeduplicate failed with that very error (ring[-1] or slice bounds, never a hang) on a routed-and-cleaned ring of >= 3 vertices, and on the class of C18 (no centre at three positions) snapPolygon never fails. C06_kmp_total_refuted: a 33-vertex ring over 3 centres makes it fail with SliceBounds, also at polygon level in the model — replayed: the real SnapPolygon panics (known finding F13). Runtime behaviour (time, memory, aliasing) is measured by the harness only.",
-  note="Trusted: as C01, except that kmpTable/kmpSearch/kmpSearchAll are no longer a hand transcription: regenerated from snap.go on every run (gen/KmpGen.v, loops as fuelled Fixpoints over the assigned variables, index/slice panics as Err values) and proved equal to the model on all inputs and outcomes (C06_source_tie_kmp_search; int as exact Z, [2]float64 as points); likewise cleanupNewVertices (incl. its panic), asPointOrLine, ensureCorrectWindingOrder (gen/SnapSmallGen.v, C06_source_tie_small; windingOrderIsCorrect and mapslicehelp.ReverseClone stay modelled); and kmpDeduplicate itself with mapslicehelp.RemoveSequences (gen/KmpDedupGen.v, C06_source_tie_kmp_deduplicate: equal to the model for every ring and outcome; kept as the model's functions after an AST check: the go-sortedmap calls (New with the a[xAx] < b[xAx] ordering, Insert keyed by fmt.Sprint(segment), Keys/Map), slices.Contains, copy + slices.Reverse on a made local, append onto the ring window as list append); cleanupNewRing (gen/CleanupRingGen.v, C06_source_tie_cleanup_new_ring: calls the regenerated kmpDeduplicate/asPointOrLine; of splitRing only the last part (classification by size/winding order and the swap) is regenerated, gen/SplitTailGen.v, C06_source_tie_split_ring_partial; its ordered-map stack walk stays hand-modelled, NOT tied to the source); time/memory/stack are runtime behaviour the model cannot exhibit. Known findings F11 (level > 32) and F13 attributed by mechanism.",
+  text="Partial, with a machine-checked refutation. Theorems for all inputs: kmpTable/kmpSearch/kmpSearchAll never index out of range and terminate (independent of the non-standard shift), splitRing is total, kmpDeduplicate never exhausts its fuel (no hang at model level) and can fail only through ring[-1] (exactly when matches=1 and reverse matches=0, not known reachable) or RemoveSequences' slice bounds; total on chains without step back and on the C18 class; bounded totality by enumeration inside Coq. END TO END (C06_snapPolygon_errors_only_from_spike_removal, C06_snapPolygon_total_on_class, also for the model with the Morton-key limit up to deepest level 32): every other stage — routing and cleanupNewVertices (C02: no empty centre list), splitRing, dedupeInnersOuters, matchInnersToPolygons, the level assembly, rings of < 3 vertices, empty rings, dying levels — is total on every in-grid polygon, valid or not, so if snapPolygon fails then kmpDeduplicate failed with that very error (ring[-1] or slice bounds, never a hang) on a routed-and-cleaned ring of >= 3 vertices, and on the class of C18 (no centre at three positions) snapPolygon never fails. C06_kmp_total_refuted: a 33-vertex ring over 3 centres makes it fail with SliceBounds, also at polygon level in the model — replayed: the real SnapPolygon panics (known finding F13). Runtime behaviour (time, memory, aliasing) is measured by the harness only. Source tie extended (round 5): the whole of splitRing incl. its ordered-map stack walk (C06_source_tie_split_ring), dedupeInnersOuters (C06_source_tie_dedupe_inners_outers), matchInnersToPolygons (C06_source_tie_match_inners: the index panic of polygons[k] = append(..) is shown unreachable) and twelve ring helpers of snap.go / mapslicehelp.go (C06_source_tie_ring_helpers) are regenerated from source on every run and proved equal to the model for all inputs and outcomes; of the per-polygon pipeline only addPointsAndSnap / SnapPolygon (the interleaved ring x level loop) is still hand-modelled.",
+  note="Trusted: as C01, except that kmpTable/kmpSearch/kmpSearchAll are no longer a hand transcription: regenerated from snap.go on every run (gen/KmpGen.v, loops as fuelled Fixpoints over the assigned variables, index/slice panics as Err values) and proved equal to the model on all inputs and outcomes (C06_source_tie_kmp_search; int as exact Z, [2]float64 as points); likewise cleanupNewVertices (incl. its panic), asPointOrLine, ensureCorrectWindingOrder (gen/SnapSmallGen.v, C06_source_tie_small; windingOrderIsCorrect and mapslicehelp.ReverseClone stay modelled); and kmpDeduplicate itself with mapslicehelp.RemoveSequences (gen/KmpDedupGen.v, C06_source_tie_kmp_deduplicate: equal to the model for every ring and outcome; kept as the model's functions after an AST check: the go-sortedmap calls (New with the a[xAx] < b[xAx] ordering, Insert keyed by fmt.Sprint(segment), Keys/Map), slices.Contains, copy + slices.Reverse on a made local, append onto the ring window as list append); cleanupNewRing (gen/CleanupRingGen.v, C06_source_tie_cleanup_new_ring: calls the regenerated kmpDeduplicate/asPointOrLine; of splitRing only the last part (classification by size/winding order and the swap) is regenerated, gen/SplitTailGen.v, C06_source_tie_split_ring_partial; its time/memory/stack are runtime behaviour the model cannot exhibit. Known findings F11 (level > 32) and F13 attributed by mechanism. Round 5: splitRing is now tied as a whole (go-ordered-map / Go map / verticesHitMultiple as trusted micro-models after an AST check; slice aliasing outside the translation).",
   tech=TECH + " (tie H incl. exhaustive chains through code and model); harness watchdog for runtime behaviour", ref="DESIGN.md 6 C06"),
  "C07": dict(
-  text="Full at model level: the model is a function; results do not depend on the order or multiplicity in which levels are processed; reversing any subset of rings of non-zero area leaves the result unchanged (xprod (rev r) = - xprod r; the hot set enters only through membership); the reverse flag reverses exactly the rings of the polygon part and nothing else. Harness: repeated runs, permuted/duplicated id lists, reversed rings, toggled flag, bit-for-bit on the implementation, incl. tile matrix sets in tiny units.",
+  text="Full at model level: the model is a function; results do not depend on the order or multiplicity in which levels are processed; reversing any subset of rings of non-zero area leaves the result unchanged (xprod (rev r) = - xprod r; the hot set enters only through membership); the reverse flag reverses exactly the rings of the polygon part and nothing else. Harness: repeated runs, permuted/duplicated id lists, reversed rings, toggled flag, bit-for-bit on the implementation, incl. tile matrix sets in tiny units. Round 5 harness: the caller's own polygon value and id slice handed over again with nothing copied, one id buffer refilled between requests, rings of >= 1024 vertices under GOMAXPROCS 1/2/3/8.",
   note="Trusted: as C01; Go map iteration modelled as arbitrary order over keyed/ordered lists; zero-area input rings are outside the reversal theorem (valid polygons have non-zero area).",
   tech=TECH + " (tie H) + repetition on the implementation", ref="DESIGN.md 6 C07"),
  "C08": dict(
-  text="Full: result keys are requested levels only; on a round grid (coarser resolution exactly 2^(d-L) times the deeper one, e.g. 2^d | XSpan) extents, centroids, occupied sets and routed centres for level l computed from deepest level L equal those computed from any deeper level d; a concrete non-round grid shows the hypothesis is needed; address computation and pixel extent regenerated from source (G2). Levels are independent by construction of the per-level model, which the correspondence checks on every id subset.",
+  text="Full: result keys are requested levels only; on a round grid (coarser resolution exactly 2^(d-L) times the deeper one, e.g. 2^d | XSpan) extents, centroids, occupied sets and routed centres for level l computed from deepest level L equal those computed from any deeper level d; a concrete non-round grid shows the hypothesis is needed; address computation and pixel extent regenerated from source (G2). Levels are independent by construction of the per-level model, which the correspondence checks on every id subset. Round 5 harness: requests enumerated in one refilled id buffer; before one call in four a polygon that is skipped as outside the grid is snapped with the same set and ids.",
   note="Trusted: as C01; the decomposition of the interleaved Go loop into per-level functions is a modelling decision validated by the correspondence on all id subsets (see DESIGN 9).",
   tech=TECH + " (tie G2 + H over all id subsets)", ref="DESIGN.md 6 C08"),
  "C09": dict(
@@ -56,27 +56,27 @@ P = {
   note="Trusted: Coq kernel; 'outside by any amount' is on the tool's 1e-10 integers (a float less than one unit outside truncates onto the border: below resolution).",
   tech=TECH + " (tie G2 + H)", ref="DESIGN.md 6 C09"),
  "C10": dict(
-  text="Full over all feature streams, target counts, per-feature outcomes and ALL schedules of the 19-label reader/snapper/router/writer transition system: per-target invariant received++inflight++future = expected, exactly once in source order with only the target's geometry, unique final state, no panic under the contract of processPolygonFunc. Correspondence by recorded histories from the real ProcessFeatures with fake sources/targets (child processes, GOMAXPROCS 1-16, delay profiles).",
+  text="Full over all feature streams, target counts, per-feature outcomes and ALL schedules of the 19-label reader/snapper/router/writer transition system: per-target invariant received++inflight++future = expected, exactly once in source order with only the target's geometry, unique final state, no panic under the contract of processPolygonFunc. Correspondence by recorded histories from the real ProcessFeatures with fake sources/targets (child processes, GOMAXPROCS 1-16, delay profiles). Round 5: the concurrency skeleton of processing.go (every statement of ProcessFeatures, processFeatures, writeFeaturesToTargets and its goroutine literals, readFeaturesFromSource, processMultiPolygon, polygonsToMulti; channel makes with their buffer size, go, defer, wg ops, sends, receives, closes, loops; everything else as its printed source text) is regenerated on every run and equals the annotated transcription the model was written from (C10_source_tie_skeleton). Harness: multipolygons of 15-257 parts; a virtual-time stream (testing/synctest bubble, go1.26.8 test binary) with pauses of 2 s to 25 h at the source, in the snapping function and at a target.",
   note="Trusted: Coq kernel; Go channel/WaitGroup semantics as modelled (rendezvous LTS); fake source/targets.",
   tech=TECH + " (tie H by histories); invariants over all reachable states", ref="DESIGN.md 6 C10"),
  "C11": dict(
-  text="Full at model level for all interleavings, no fairness assumed: no deadlock, strictly decreasing measure (every execution finite), return only after every target finished and received everything, reader and snapper past their last blocking operation at return. Partial: data races and leaked goroutines are runtime behaviour no model exhibits; searched dynamically (second harness binary built -race, goroutine accounting) as supporting evidence.",
+  text="Full at model level for all interleavings, no fairness assumed: no deadlock, strictly decreasing measure (every execution finite), return only after every target finished and received everything, reader and snapper past their last blocking operation at return. Partial: data races and leaked goroutines are runtime behaviour no model exhibits; searched dynamically (second harness binary built -race, goroutine accounting) as supporting evidence. Round 5: C11_source_tie_skeleton (the regenerated concurrency skeleton of processing.go = the transcription the model was written from) and, with an executable small-step semantics of the skeleton language (goroutines as frame stacks, rendezvous, close, wait groups, defer, panics), C11_source_tie_model_runs_are_skeleton_runs_partial / C11_source_tie_complete_runs_partial: every run of the model, any schedule, is a run of the semantics of the regenerated skeleton with exactly the communication events its labels stand for, ending in the state the model state stands for; a final model state gives a run in which every goroutine has returned. Missing (hence partial): the converse simulation. Harness: virtual-time stream as C10.",
   note="Trusted: as C10; race detector and goroutine accounting are search, not proof.",
   tech=TECH + " (tie H by histories); -race/goroutine search for the runtime clause", ref="DESIGN.md 6 C11"),
  "C12": dict(
-  text="Full for the paged-writer state machine, every stream and every page size p>0: one row per feature in order, n/p+1 transactions, extent = bounding box of all non-empty geometries (commutative idempotent monoid), one rtree entry per non-empty geometry, schema and spatial reference system copied (also over an srs id the library pre-seeds: defect F10, repaired, C12_regression_F10); p=0 is DivZero. The real TargetGeopackage is driven through the verif SQLite stand-in and the written file compared with the model.",
+  text="Full for the paged-writer state machine, every stream and every page size p>0: one row per feature in order, n/p+1 transactions, extent = bounding box of all non-empty geometries (commutative idempotent monoid), one rtree entry per non-empty geometry, schema and spatial reference system copied (also over an srs id the library pre-seeds: defect F10, repaired, C12_regression_F10); p=0 is DivZero. The real TargetGeopackage is driven through the verif SQLite stand-in and the written file compared with the model. Round 5: WriteFeatures (the paging loop over the channel), writeFeatures (one transaction per page: Begin, Prepare, per feature NewBinary / capped column copy / Exec / empty test / extent accumulation, Close, Commit, UpdateGeometryExtent) and createSQL / selectSQL / insertSQL are regenerated from gpkg.go on every run and proved equal to the model's write_features / flush for every target, page size (0 and negative included), database and stream, all error outcomes (C12_source_tie_writer), and to the model's row layout (C12_source_tie_sql); database and library calls are mapped to abstract operations after an AST check. Harness: bulk pages at row counts where batching by a database limit wraps (999 and 32766 divided by 1-8 columns).",
   note="Trusted: Coq kernel; SQLite, go-sqlite3, the GeoPackage library and the verif stand-in for SpatiaLite functions are modelled, held to the code by correspondence on written files.",
   tech=TECH + " (tie H on written files)", ref="DESIGN.md 6 C12"),
  "C13": dict(
-  text="Partial (urfave/cli, file system, path, SQLite modelled). Theorems: target path = dir/name_<id>ext on the safe alphabet (full path.Clean model), distinct ids give distinct files, an id list with repetitions is the run on its distinct ids (one target file per distinct id: C13_duplicate_ids_one_file_each), flag plumbing, validation gate, CLI = per-table composition of writer . route . pipeline(snap cfg), overwrite forgets prior content; C13_source_tie: flag->option map, suffix format, statement shape of injectSuffixIntoPath and IsQuadTree-before-DeviationStats extracted from main.go's AST on every run. Weight is on the end-to-end correspondence of the real binary (built -tags verif, also -race) against the composition of library calls (id lists with repetitions; date/time attributes compared as instants).",
+  text="Partial (urfave/cli, file system, path, SQLite modelled). Theorems: target path = dir/name_<id>ext on the safe alphabet (full path.Clean model), distinct ids give distinct files, an id list with repetitions is the run on its distinct ids (one target file per distinct id: C13_duplicate_ids_one_file_each), flag plumbing, validation gate, CLI = per-table composition of writer . route . pipeline(snap cfg), overwrite forgets prior content; C13_source_tie: flag->option map, suffix format, statement shape of injectSuffixIntoPath and IsQuadTree-before-DeviationStats extracted from main.go's AST on every run. Weight is on the end-to-end correspondence of the real binary (built -tags verif, also -race) against the composition of library calls (id lists with repetitions; date/time attributes compared as instants). Round 5 harness: wide attribute tables at the default page size (about 32766 bound values per page), runs under GOMAXPROCS 1 and 2, a tool that does not exit within 120 s is a violation.",
   note="Trusted: as C12 plus urfave/cli, path, os.",
   tech=TECH + " (CLI glue tie + tie H on the real binary)", ref="DESIGN.md 6 C13"),
  "C14": dict(
-  text="Theorems: isQuadTree soundness for every record and level, universal single-field perturbation rejection, acceptance implies pixel size = cellSize/16 under stated conditions, validation total; built-in sets by computation over data regenerated from the JSON files on every run (G3).",
+  text="Theorems: isQuadTree soundness for every record and level, universal single-field perturbation rejection, acceptance implies pixel size = cellSize/16 under stated conditions, validation total; built-in sets by computation over data regenerated from the JSON files on every run (G3). Round 5: the body of pointindex.IsQuadTree is regenerated statement by statement on every run and proved equal to the model's isQuadTree for EVERY record, no hypotheses (C14_source_tie_isQuadTree; nil dereference = panic verdict, 64-bit successor of the previous id shown equal to the exact one), the n-th errors.New being the model's Reject n (C14_source_tie_isQuadTree_checks).",
   note="Trusted: Coq kernel+vm_compute; translator G3 (JSON -> Coq terms, exact decimals); float ratio test modelled over Q with the tolerance stated.",
   tech=TECH + " (tie G3 for data, tie H for IsQuadTree/validate)", ref="DESIGN.md 6 C14"),
  "C15": dict(
-  text="Theorems over Q for every matrix without variable widths, both corner conventions, every tile and interior point: fromNative . toNative consistent, outside maps to none, bbox spans tile (0,0) to (W,H), all in x,y order. Partial in the float clause (9-decimal rounding, float division): checked by correspondence with margins.",
+  text="Theorems over Q for every matrix without variable widths, both corner conventions, every tile and interior point: fromNative . toNative consistent, outside maps to none, bbox spans tile (0,0) to (W,H), all in x,y order. Partial in the float clause (9-decimal rounding, float division): checked by correspondence with margins. Round 5: FromNative, ToNative, MatrixSize, MatrixBoundingBox, ToXYPoint, IsLatLon, axisOrderIsLatLon and roundFloat of tms20.go are regenerated on every run with float64 read as exact Q and proved equal to the model for all inputs (C15_source_tie_addressing, _tm); the translated roundFloat is within 5e-10 of the identity the model uses (C15_source_tie_roundFloat).",
   note="Trusted: as C14; float rounding is an envelope.",
   tech=TECH + " (tie G3 data, tie H)", ref="DESIGN.md 6 C15"),
  "C16": dict(
